@@ -181,10 +181,17 @@ def failing_file(log):
     return m.group(1) if m else "unknown"
 
 
-def forbidden_scan():
-    """grep gate over all Coq sources (comments stripped)."""
+def forbidden_scan(pid=None):
+    """grep gate over the Coq sources (comments stripped).
+
+    Files named C<nn>*.v belong to one property; all other files are shared.  The gate for
+    property `pid` covers the shared files and that property's own files (pid None: everything)."""
     hits = []
     for rel in coq_sources():
+        base = os.path.basename(rel)
+        m = re.match(r"(C\d\d)", base)
+        if pid and m and m.group(1) != pid:
+            continue
         with open(os.path.join(COQ, rel)) as f:
             src = f.read()
         src = strip_coq_comments(src)
@@ -459,7 +466,7 @@ def proof_stage(ctx, targets, allow_axioms=(), props_file=None, gen_needed=()):
             ctx.notes.append("translator failed closed on %s: %s" % (name, err))
             ctx.broken.append(("translator", name, err)) if hasattr(ctx, "broken") else None
             ok_all = False
-    hits = forbidden_scan()
+    hits = forbidden_scan(ctx.pid)
     ctx.obligation("no Admitted/admit/Axiom/Parameter/Conjecture/unsafe flag in coq/", not hits)
     if hits:
         ctx.notes.append("forbidden constructs: " + "; ".join(hits[:10]))
